@@ -843,6 +843,50 @@ func execDefaults(segsHex string) string {
 	return strings.Join(out, ",")
 }
 
+// execEqualCap: "read equalcap <segs> <ntab> <nilmask> <m>": the root holds two structs, each holding one capability
+// pointer; the table has ntab entries, null where the mask has a bit set, else client (k mod m) of the shared clients.
+// Output: Equal's verdict on the two capability pointers (Model.EqualCap.eqSameMsg).
+func execEqualCap(t []string) string {
+	segs, ok := parseSegs(t[1])
+	if !ok {
+		return "bad-op"
+	}
+	ntab, _ := strconv.Atoi(t[2])
+	mask, _ := strconv.Atoi(t[3])
+	m, _ := strconv.Atoi(t[4])
+	if m < 1 || m > 8 || ntab > 16 {
+		return "bad-op"
+	}
+	msg := &capnp.Message{Arena: capnp.MultiSegment(segs), TraverseLimit: 1 << 40}
+	for k := 0; k < ntab; k++ {
+		if mask>>uint(k)&1 == 1 {
+			msg.AddCap(nil)
+		} else {
+			msg.AddCap(sharedClients()[k%m].AddRef())
+		}
+	}
+	root, err := msg.Root()
+	if err != nil || !root.Struct().IsValid() {
+		return "invalid"
+	}
+	var ps [2]capnp.Ptr
+	for k := range ps {
+		b, err := root.Struct().Ptr(uint16(k))
+		if err != nil || !b.Struct().IsValid() {
+			return "invalid"
+		}
+		ps[k], err = b.Struct().Ptr(0)
+		if err != nil || !ps[k].Interface().IsValid() {
+			return "invalid"
+		}
+	}
+	eq, err := capnp.Equal(ps[0], ps[1])
+	if err != nil {
+		return "invalid"
+	}
+	return strconv.FormatBool(eq)
+}
+
 // execEqualCopy: "read equalcopy <segs> <mode>": a value equals its deep copy, in both argument orders, whatever the
 // destination held before and also when the destination is a larger (zero-extended) struct.  Mode 0: SetRoot into a new
 // message; 1: CopyFrom into a dirty larger struct; 2: SetStruct into a dirty larger composite-list element; 3: the
@@ -1040,6 +1084,9 @@ func execRead(t []string) string {
 	}
 	if len(t) == 4 && t[0] == "equal" {
 		return execEqual(t)
+	}
+	if len(t) == 5 && t[0] == "equalcap" {
+		return execEqualCap(t)
 	}
 	if len(t) == 3 && t[0] == "equalcopy" {
 		return execEqualCopy(t[1], t[2])
